@@ -15,6 +15,7 @@
 package l4winbox
 
 import (
+	"bytes"
 	"errors"
 	"io"
 	"regexp"
@@ -94,8 +95,30 @@ func (m *MatchWinbox) Match(cx *layer4.Connection) (bool, error) {
 		return false, err
 	}
 
-	// Parse MessageAuth
+	// A full first chunk that is not a message on its own has to be followed by a second chunk, and until
+	// that chunk is complete the message can't be judged: ask for more data instead of rejecting what may
+	// be a fragment of a valid message.
 	msg := &MessageAuth{}
+	if int(hdr[0]) == MessageChunkBytesMax && msg.FromBytes(buf[:MessageChunkBytesMax+2]) != nil {
+		// (no second chunk can help if the delimiter comes so early that the key and the parity byte
+		// had to fit into the first chunk as well)
+		i := bytes.IndexByte(buf[2:MessageChunkBytesMax+2], MessageChunkBytesDelimiter)
+		if i >= 0 && i+MessageAuthPublicKeyBytesTotal+2 <= MessageChunkBytesMax {
+			return false, nil
+		}
+		if n < MessageChunkBytesMax+2 {
+			return false, layer4.ErrConsumedAllPrefetchedBytes
+		}
+		need := MessageChunkBytesMax + 2 + int(buf[MessageChunkBytesMax+2])
+		if need > l {
+			return false, nil
+		}
+		if n < need {
+			return false, layer4.ErrConsumedAllPrefetchedBytes
+		}
+	}
+
+	// Parse MessageAuth
 	if err = msg.FromBytes(buf[:n+2]); err != nil {
 		return false, nil
 	}
